@@ -145,7 +145,15 @@ static int r_sol(int i, char *nm, long *a, long *m) { CGNS_ENUMT(GridLocation_t)
 static int w_discrete(const char *n, long p, int *i) { return cg_discrete_write(fn, cB, Z, n, i); }
 static int n_discrete(int *n) { return cg_ndiscrete(fn, cB, Z, n); }
 static int r_discrete(int i, char *nm, long *a, long *m) { *m = -1; return cg_discrete_read(fn, cB, Z, i, nm); }
-static int w_rigid(const char *n, long p, int *i) { return cg_rigid_motion_write(fn, cB, Z, n, p % 2 ? CGNS_ENUMV(VariableRate) : CGNS_ENUMV(ConstantRate), i); }
+static int w_rigid(const char *n, long p, int *i)
+{
+    /* a RigidGridMotion_t without OriginLocation cannot be read back ("defined incorrectly"): write the array too */
+    double d[6] = {0, 0, 0, 1, 1, 1}; cgsize_t dims[2] = {3, 2};
+    int rc = cg_rigid_motion_write(fn, cB, Z, n, p % 2 ? CGNS_ENUMV(VariableRate) : CGNS_ENUMV(ConstantRate), i);
+    if (rc) return rc;
+    if (cg_goto(fn, cB, "Zone_t", Z, "RigidGridMotion_t", *i, "end")) return 1;
+    return cg_array_write("OriginLocation", CGNS_ENUMV(RealDouble), 2, dims, d);
+}
 static int n_rigid(int *n) { return cg_n_rigid_motions(fn, cB, Z, n); }
 static int r_rigid(int i, char *nm, long *a, long *m) { CGNS_ENUMT(RigidGridMotionType_t) t; int rc = cg_rigid_motion_read(fn, cB, Z, i, nm, &t); *a = t == CGNS_ENUMV(VariableRate); *m = 2; return rc; }
 static int w_arb(const char *n, long p, int *i) { return cg_arbitrary_motion_write(fn, cB, Z, n, p % 2 ? CGNS_ENUMV(DeformingGrid) : CGNS_ENUMV(NonDeformingGrid), i); }
@@ -312,7 +320,28 @@ static int r_descr(int i, char *nm, long *a, long *m) { char *text = NULL; int r
 static int w_user(const char *n, long p, int *i) { *i = 0; return cg_user_data_write(n); }
 static int n_user(int *n) { return cg_nuser_data(n); }
 static int r_user(int i, char *nm, long *a, long *m) { *m = -1; return cg_user_data_read(i, nm); }
-static int w_array(const char *n, long p, int *i) { int v[1]; cgsize_t dim = 1; *i = 0; v[0] = (int)p; return cg_array_write(n, CGNS_ENUMV(Integer), 1, &dim, v); }
+/* arrays under DiscreteData_t / ArbitraryGridMotion_t must have the zone's vertex count or the file cannot be read back */
+static long array_len(void)
+{
+    const char *pl = plabel();
+    if (!strcmp(pl, "DiscreteData_t") || !strcmp(pl, "ArbitraryGridMotion_t")) return zone_nvert();
+    return 1;
+}
+static int w_array(const char *n, long p, int *i)
+{
+    long len = array_len(); cgsize_t dim = (cgsize_t)len; int rc;
+    *i = 0;
+    if (!strcmp(plabel(), "ArbitraryGridMotion_t")) {          /* only real arrays can be read back there */
+        double *d = malloc(sizeof(double) * (size_t)len);
+        for (long k = 0; k < len; k++) d[k] = (double)p;
+        rc = cg_array_write(n, CGNS_ENUMV(RealDouble), 1, &dim, d);
+        free(d); return rc;
+    }
+    int *v = malloc(sizeof(int) * (size_t)len);
+    for (long k = 0; k < len; k++) v[k] = (int)p;
+    rc = cg_array_write(n, CGNS_ENUMV(Integer), 1, &dim, v);
+    free(v); return rc;
+}
 static int n_array(int *n) { return cg_narrays(n); }
 static int r_array(int i, char *nm, long *a, long *m)
 {
@@ -320,7 +349,17 @@ static int r_array(int i, char *nm, long *a, long *m)
     int rc = cg_array_info(i, nm, &t, &nd, dims);
     *m = 0; *a = -1;
     if (rc) return rc;
-    if (t == CGNS_ENUMV(Integer) && nd == 1 && dims[0] == 1) { rc = cg_array_read(i, v); *a = v[0]; }
+    if (t == CGNS_ENUMV(Integer) && nd == 1 && dims[0] >= 1 && dims[0] < 100000) {
+        int *buf = malloc(sizeof(int) * (size_t)dims[0]);
+        rc = cg_array_read(i, buf); *a = buf[0]; v[0] = buf[0];
+        for (cgsize_t k = 1; k < dims[0]; k++) if (buf[k] != buf[0]) *a = -2;      /* every element holds the payload */
+        free(buf);
+    } else if (t == CGNS_ENUMV(RealDouble) && nd == 1 && dims[0] >= 1 && dims[0] < 100000) {
+        double *buf = malloc(sizeof(double) * (size_t)dims[0]);
+        rc = cg_array_read(i, buf); *a = (long)buf[0];
+        for (cgsize_t k = 1; k < dims[0]; k++) if (buf[k] != buf[0]) *a = -2;
+        free(buf);
+    }
     return rc;
 }
 static int w_integral(const char *n, long p, int *i) { *i = 0; return cg_integral_write(n); }
@@ -351,7 +390,9 @@ static int n_nfamily(int *n) { return cg_node_nfamilies(n); }
 static int r_nfamily(int i, char *nm, long *a, long *m) { int b, g; *m = -1; return cg_node_family_read(i, nm, &b, &g); }
 static int w_fbcds(const char *n, long p, int *i) { *i = 0; return cg_bcdataset_write(n, BCT(p), CGNS_ENUMV(Dirichlet)); }
 static int n_fbcds(int *n) { return cg_bcdataset_info(n); }
-static int r_fbcds(int i, char *nm, long *a, long *m) { CGNS_ENUMT(BCType_t) t; int d, n; int rc = cg_bcdataset_read(i, nm, &t, &d, &n); *a = BCT_INV(t); *m = 20; return rc; }
+/* cg_bcdataset_write on an existing name keeps the node and its BCType and re-creates only the BCData_t child: the
+   type does not follow the payload */
+static int r_fbcds(int i, char *nm, long *a, long *m) { CGNS_ENUMT(BCType_t) t; int d, n; int rc = cg_bcdataset_read(i, nm, &t, &d, &n); *a = BCT_INV(t); *m = -1; return rc; }
 
 static const kind_t KINDS[] = {
     {"CGNSTree_t", "CGNSBase_t", w_base, n_base, r_base, 1},
@@ -390,6 +431,15 @@ static const kind_t KINDS[] = {
     {"*", "AdditionalFamilyName_t", w_multifam, n_multifam, r_multifam, 0},
     {NULL, NULL, NULL, NULL, NULL, 0}
 };
+
+/* children the harness itself adds to an entity: not siblings of the history */
+static int hidden(const char *pl, const char *label, const char *name)
+{
+    if (!strcmp(label, "Descriptor_t") && !strcmp(name, "P")) return 1;
+    if (!strcmp(pl, "RigidGridMotion_t") && !strcmp(label, "DataArray_t") && !strcmp(name, "OriginLocation")) return 1;
+    if (!strcmp(pl, "BaseIterativeData_t") && !strcmp(label, "DataArray_t") && !strcmp(name, "TimeValues")) return 1;
+    return 0;
+}
 
 static const kind_t *find_kind(const char *parent, const char *label)
 {
@@ -438,10 +488,9 @@ static void do_write(void)
     if (rc) { printf("w 1 0\n"); return; }
     if (idx == 0) {                       /* node-context writers hand back no index: find it by name */
         int n = 0, pos = 0; char nm[CG_MAX_GOTO_DEPTH * 33 + 1]; long a, m;
-        int isd = !strcmp(label, "Descriptor_t");
         if (!k->cnt(&n)) for (int i = 1; i <= n; i++) {
             if (k->rd(i, nm, &a, &m)) continue;
-            if (isd && !strcmp(nm, "P")) continue;            /* the harness' own payload descriptor is not a sibling */
+            if (hidden(pl, label, nm)) continue;              /* the harness' own children are not siblings */
             pos++;
             if (!strcmp(nm, name)) { idx = pos; break; }
         }
@@ -486,7 +535,7 @@ static void do_view(void)
         rc = k->rd(i, nm, &a, &m);
         dbg("read", rc);
         if (rc) { o += snprintf(out + o, sizeof out - o, "%s?%d", shown ? "," : "", i); shown++; continue; }
-        if (!strcmp(label, "Descriptor_t") && !strcmp(nm, "P")) continue;      /* the harness' own payload descriptor */
+        if (hidden(pl, label, nm)) continue;                                   /* the harness' own children */
         if (k->descr) { if (!go_child(path, pl, k, i)) havep = read_P(&p); }
         o += snprintf(out + o, sizeof out - o, "%s%s:", shown ? "," : "", nm);
         if (k->descr) {
@@ -509,7 +558,13 @@ static void do_mk(void)
     int rc = go(path);
     float f3[3] = {0, 0, 1};
     if (rc) { printf("c 1\n"); return; }
-    if (!strcmp(what, "biter")) rc = cg_biter_write(fn, cB, "BaseIterativeData", 3);
+    if (!strcmp(what, "biter")) {
+        /* a BaseIterativeData_t without TimeValues / IterationValues cannot be read back */
+        double tv[3] = {0, 1, 2}; cgsize_t dim = 3;
+        rc = cg_biter_write(fn, cB, "BaseIterativeData", 3);
+        if (!rc) rc = cg_goto(fn, cB, "BaseIterativeData_t", 1, "end");
+        if (!rc) rc = cg_array_write("TimeValues", CGNS_ENUMV(RealDouble), 1, &dim, tv);
+    }
     else if (!strcmp(what, "ziter")) rc = cg_ziter_write(fn, cB, Z, "ZoneIterativeData");
     else if (!strcmp(what, "piter")) rc = cg_piter_write(fn, cB, PZ, "ParticleIterativeData");
     else if (!strcmp(what, "state")) rc = cg_state_write("refstate");
